@@ -210,6 +210,22 @@ def _evidence(mod, ctx, lean, outcome, known_lines, wall):
     os.replace(tmp, os.path.join(EVID, mod.PROPERTY + ".json"))
 
 
+def _library_exception(ctx, exc):
+    """An exception that escapes a check and was RAISED INSIDE THE LIBRARY UNDER TEST (a frame under the repo path) is a
+    behavioural difference of the code, not a crash of the check: record it as a broken correspondence."""
+    from .shim import REPO
+    repo = os.path.realpath(REPO)
+    tb = traceback.extract_tb(exc.__traceback__)
+    frames = [f for f in tb if os.path.realpath(f.filename).startswith(repo + os.sep)]
+    if not frames:
+        return None
+    f = frames[-1]
+    ctx.disagree("check-aborted-by-library-exception", {"where": f"{os.path.relpath(f.filename, repo)}:{f.lineno} in {f.name}"},
+                 "the model and the unchanged library do not raise here", f"{type(exc).__name__}: {exc}"[:400],
+                 note="an exception raised inside the library under test aborted the check")
+    return True
+
+
 def run_property(prop, tier, seed):
     t0 = time.time()
     mod = importlib.import_module(f"harness.props.{prop.lower()}")
@@ -251,8 +267,10 @@ def run_property(prop, tier, seed):
             infra_error = f"LeanError: {e}"
         else:
             ctx.note(f"driver unavailable because the build is broken: {e}")
-    except Exception:
-        infra_error = traceback.format_exc()
+    except Exception as e:
+        infra_error = _library_exception(ctx, e) or traceback.format_exc()
+        if infra_error is True:
+            infra_error = None
 
     def new_violations():
         return [v for v in ctx.violations if v["signature"] not in open_sigs]
